@@ -68,7 +68,11 @@ func RunRandom[C any](t *testing.T, prop, leg string, gen func(*rapid.T) C, chec
 		c := gen(rt)
 		err := guarded(check, c, r)
 		if err != nil && !r.Suppress(err) {
-			r.WriteFail(c, err)
+			if _, ok := err.(*rec.Violation); ok {
+				r.WriteFail(c, err)
+			} else {
+				fmt.Printf("HARNESS-ERROR %s/%s: %v\n", prop, leg, err)
+			}
 			rt.Fatalf("%v", err)
 		}
 	})
@@ -102,7 +106,11 @@ func (e *Enum[C]) Mine() bool {
 func (e *Enum[C]) Do(c C) {
 	err := guarded(e.check, c, e.r)
 	if err != nil && !e.r.Suppress(err) {
-		e.r.WriteFail(c, err)
+		if _, ok := err.(*rec.Violation); ok {
+			e.r.WriteFail(c, err)
+		} else {
+			fmt.Printf("HARNESS-ERROR %s/%s: %v\n", e.r.Prop, e.r.Leg, err)
+		}
 		e.r.Flush()
 		e.t.Fatalf("%v", err)
 	}
